@@ -29,10 +29,13 @@ ASSUMPTIONS = ["as C01"]
 REQUIRED_CLASSES = {"all": ["blocks=3", "blocks=4", "params=3", "repr=sparse", "repr=sympy", "selection=mask", "selection=full"]}
 
 
+FORMS = ("indices", "indices", "indices", "blocks", "blocks", "eigvecs")
+
+
 def strategy(tier):
     if tier == "thorough":
-        return problems(tier, hermitian=True, max_N=10, max_block_size=4)
-    return problems(tier, hermitian=True)
+        return problems(tier, hermitian=True, max_N=10, max_block_size=4, forms=FORMS)
+    return problems(tier, hermitian=True, forms=FORMS)
 
 
 def check_case(case, enforce_all=False):
